@@ -295,7 +295,11 @@ def run_cases(cases, tag="c10"):
         macro = "ascent_par" if c["cfg"].get("par") else "ascent"
         jobs.append(dict(id=c["id"] + "_t", text=dl.rust_program_text(tagged), macro=macro, rels=tagged["rels"], scripts=scripts))
         jobs.append(dict(id=c["id"] + "_e", text=dl.rust_program_text(explicit), macro=macro, rels=explicit["rels"], scripts=scripts))
-    impl = prog.build_and_run(tag, jobs)
+    impl = prog.build_and_run(tag, jobs, run_timeout=90)
+    # a program that does not terminate takes the other jobs of its binary with it: run those again, one binary each
+    late = [j for j in jobs if any(isinstance(r, dict) and (r.get("timeout") or r.get("crash")) for r in impl.get(j["id"], [dict(timeout=True)]))]
+    if late:
+        impl.update(prog.build_and_run(tag + "r", late, nbins=len(late), run_timeout=25))
     groups, invs = [], []
     for c in cases:
         ex, inv = spec_exprs(progs[c["id"]][1], c["inputs"])
@@ -399,7 +403,7 @@ def compare(r):
         # sanity: the explicit program through the real engine agrees with the oracle (C01's subject)
         ie = r["impl_explicit"][k] if r["impl_explicit"] else None
         if ie is None or "snaps" not in ie:
-            raise lib.Infra("explicit program of %s did not run: %s\n%s" % (c["id"], ie, r["explicit_text"]))
+            raise lib.Infra("explicit program of %s did not run (C01's subject, not C10's): %s\n%s" % (c["id"], ie, r["explicit_text"]))
         esnap = prog.canon_snap(ie["snaps"][-1])
         for name, _, kind in r["explicit"]["rels"]:
             if esnap[name][1] != spec[name]:
